@@ -670,6 +670,33 @@ func (c *Ctx) verifyFragment(st, entry *State, fc *FuncContract, fd *ast.FuncDec
 		pending = append(pending, pendingVar{obj, v})
 		return true
 	})
+	// every other local that is in scope at the loop (declared before it): a clause of the contract may mention it although
+	// the loop itself does not (any more) - e.g. a bound the loop is supposed to test
+	if c.pkg.types != nil {
+		for sc := c.pkg.types.Scope().Innermost(loop.Pos()); sc != nil && sc != c.pkg.types.Scope() && sc != types.Universe; sc = sc.Parent() {
+			for _, name := range sc.Names() {
+				obj, ok := sc.Lookup(name).(*types.Var)
+				if !ok || obj.IsField() || seen[obj] || obj.Pos() >= loop.Pos() || obj.Pos() < fd.Pos() {
+					continue
+				}
+				seen[obj] = true
+				if _, bound := st.vars[obj]; bound {
+					continue
+				}
+				t := obj.Type()
+				if !validType(t) || c.opaqueType(t) {
+					st.vars[obj] = Opaque{t}
+					continue
+				}
+				if c.boxedVars[obj] && c.addressTakenBefore(fd, obj, loop.End()) {
+					continue
+				}
+				v := c.fresh(t, obj.Name(), &facts)
+				c.refsBounded(v, st.alloc, &facts)
+				pending = append(pending, pendingVar{obj, v})
+			}
+		}
+	}
 	// values first (all bounded by the entry allocation), then the boxes of address-taken locals: a local whose address is
 	// only taken after the loop cannot be pointed at by anything that exists while the loop runs
 	for _, pv := range pending {
